@@ -286,6 +286,9 @@ func genC05(t *rapid.T, cfg *core.Config) *core.Case {
 	}
 	g := core.NewGen(t, spec, rapid.IntRange(3, fuel).Draw(t, "fuel"), cfg.Excl)
 	g.Calls = rapid.IntRange(0, 9).Draw(t, "calls") < 5
+	if rapid.IntRange(0, 2).Draw(t, "zoo") == 0 {
+		g.Zoo = rapid.IntRange(5, 40).Draw(t, "zoo%")
+	}
 	var x *core.X
 	if rapid.IntRange(0, 3).Draw(t, "const") == 0 {
 		x = g.ConstRoot()
